@@ -1145,6 +1145,16 @@ func ruleSettingsPresence(p *Prog, r *Out) {
 						continue
 					}
 				}
+				// st.has(ID): the presence bit of a parameter (settingsMergeOK pins has)
+				if cc, ok := ast.Unparen(g.Cond).(*ast.CallExpr); ok && p.calleeOf(cc) == "(*Settings).has" && g.Val {
+					if okm, _ := p.settingsMergeOK(); okm {
+						continue
+					}
+				}
+				// a compare-and-swap loop's own exit test is not a condition on the value received
+				if strings.Contains(t, "CompareAndSwap") {
+					continue
+				}
 				bad = t
 			}
 			r.check(bad == "", fnn+" stores "+target+" without a value condition", p.pos(c.Pos()), "unconditional, or under the parameter's presence marker only",
